@@ -625,7 +625,7 @@ def id_between(ctx):
             v = drop_lv(c.args[1].val)
             if v[0] == 'tuple' and len(v[1]) == 2 and versionless(v[1][1]) == ('param', 3):
                 pos = versionless(v[1][0])
-                if not is_call(pos, 'rational_between') and as_item(pos[1] if pos[0] == 'field' else pos) is not None:
+                if not is_call(pos, '~rational_between') and as_item(pos[1] if pos[0] == 'field' else pos) is not None:
                     sib.append(bb)
     if not sib:
         ctx.ok('sibling-guard', body, 'no in-place sibling shortcut (always forks with a fresh position)', nontrivial=False)
@@ -689,7 +689,7 @@ def id_between(ctx):
     for bb, c in sorted(it.calls.items()):
         if call_name(c.term) == 'push' and len(c.args) == 2:
             v = drop_lv(c.args[1].val)
-            if v[0] == 'tuple' and len(v[1]) == 2 and versionless(v[1][1]) == ('param', 3) and is_call(drop_lv(v[1][0]), 'rational_between'):
+            if v[0] == 'tuple' and len(v[1]) == 2 and versionless(v[1][1]) == ('param', 3) and is_call(drop_lv(v[1][0]), '~rational_between'):
                 rb = drop_lv(v[1][0])
                 forks.append((bb, [drop_lv(inline_option_maps(facts, a)) for a in rb[2]]))
     if not forks:
@@ -709,7 +709,7 @@ def id_between(ctx):
     # (b) one-bound position from the first node
     one = []
     for bb, c in it.calls.items():
-        if is_call(c.term, 'rational_between') and len(c.args) == 2:
+        if is_call(c.term, '~rational_between') and len(c.args) == 2:
             a0 = drop_lv(inline_option_maps(facts, c.args[0].val))
             a1 = drop_lv(inline_option_maps(facts, c.args[1].val))
             if any(versionless(st) == ('param', 1) for st in subterms(a0)) or any(versionless(st) == ('param', 2) for st in subterms(a1)):
